@@ -4,7 +4,8 @@
    covered by these theorems (see notes/C04.md). *)
 From Coq Require Import Reals List Bool QArith.
 Import ListNotations.
-From LV Require Import Base.Xnum Goose.MH Goose.Markov Goose.MarkovProofs Goose.MarkovBridge.
+From LV Require Import Base.Xnum Goose.MH Goose.Markov Goose.MarkovProofs Goose.MarkovBridge
+  Goose.Keys Goose.MarkovRand Goose.MarkovRandProofs Goose.CorrC04Keys.
 Close Scope Q_scope.
 Open Scope R_scope.
 
@@ -210,3 +211,45 @@ Example C04_ex_sequence_and_steps :
   forall n, invariant zs w23 (iter_kernel (pair_eqb Nat.eqb Nat.eqb) zs n
                                 (seq_kernels (pair_eqb Nat.eqb Nat.eqb) zs [G; K; G])).
 Proof. exact ex23_sequence_and_steps. Qed.
+
+(* ---- the hypothesis that makes C04_sequence_invariant applicable to KernelSequence ----
+   A kernel is a deterministic function of (its randomness, state).  If the kernels of one sequence
+   transition draw from INDEPENDENT randomness, the matrix of the sequence is the matrix product
+   (seq_kernel) and invariance is inherited; if they SHARE the randomness (same PRNG key) it is not. *)
+Theorem C04_independent_randomness_gives_product :
+  forall (X W1 W2 : Type) (eqb : X -> X -> bool), eqb_ok eqb ->
+  forall xs : list X, NoDup xs ->
+  forall (Om1 : list W1) (Om2 : list W2) (pr1 : W1 -> R) (pr2 : W2 -> R)
+         (K1 : W1 -> X -> X) (K2 : W2 -> X -> X),
+  (forall om x, In om Om1 -> In x xs -> In (K1 om x) xs) ->
+  (forall x y, In x xs ->
+     mat_of eqb (list_prod Om1 Om2) (pr_indep pr1 pr2) (compose_indep K1 K2) x y
+     = seq_kernel xs (mat_of eqb Om1 pr1 K1) (mat_of eqb Om2 pr2 K2) x y)
+  /\ (forall w, invariant xs w (mat_of eqb Om1 pr1 K1) -> invariant xs w (mat_of eqb Om2 pr2 K2) ->
+        invariant xs w (mat_of eqb (list_prod Om1 Om2) (pr_indep pr1 pr2) (compose_indep K1 K2))).
+Proof. exact thm_indep_is_product. Qed.
+Print Assumptions C04_independent_randomness_gives_product.
+
+Theorem C04_shared_randomness_refuted :
+  exists (xs : list nat) (w : nat -> R) (Om : list nat) (pr : nat -> R) (K1 K2 : nat -> nat -> nat),
+    NoDup xs /\ positive xs w /\ rsum Om pr = 1 /\
+    invariant xs w (mat_of Nat.eqb Om pr K1) /\ invariant xs w (mat_of Nat.eqb Om pr K2) /\
+    invariant xs w (mat_of Nat.eqb (list_prod Om Om) (pr_indep pr pr) (compose_indep K1 K2)) /\
+    ~ invariant xs w (mat_of Nat.eqb Om pr (compose_shared K1 K2)).
+Proof. exact thm_shared_randomness_refuted. Qed.
+Print Assumptions C04_shared_randomness_refuted.
+
+(* keys = jax.random.split(prng_key, n): pairwise distinct, none is the carry (keys as tree paths) *)
+Theorem C04_sequence_keys_independent : forall k m, keys_independent k (seq_keys k m).
+Proof. exact seq_keys_independent. Qed.
+Print Assumptions C04_sequence_keys_independent.
+
+(* `_, subkey = split(prng_key)` per kernel without advancing prng_key: every kernel gets the same key *)
+Theorem C04_stale_sequence_keys_refuted : forall k m, (2 <= m)%nat -> ~ keys_independent k (stale_keys k m).
+Proof. exact stale_keys_refuted. Qed.
+Print Assumptions C04_stale_sequence_keys_refuted.
+
+(* the boolean check evaluated on the keys the real KernelSequence handed out is sound *)
+Theorem C04_keys_check_sound : forall carry ks, seq_keys_ok carry ks = true -> keys_independent carry ks.
+Proof. exact seq_keys_ok_sound. Qed.
+Print Assumptions C04_keys_check_sound.
